@@ -326,6 +326,7 @@ macro_rules! narrow_impl {
             pub fn c10(_n: u64, seed: u64) {
                 let t = Tally::new(name("c10.planar_orthographic_case"));
                 let tz = Tally::new(name("c10.planar_zero_height"));
+                let tr = Tally::new(name("c10.planar_rejections_near_fovy_zero"));
                 let mut s = seed ^ 0xc10;
                 let quiet = |f: &dyn Fn() -> Matrix4<S>| -> Option<Matrix4<S>> {
                     std::panic::catch_unwind(std::panic::AssertUnwindSafe(|| f())).ok()
@@ -362,9 +363,18 @@ macro_rules! narrow_impl {
                     // height = 0 and fovy = 0: inv_f = 0/0, the focal-point assertion fails
                     let nan = quiet(&|| planar(Rad(0.0 as S), aspect, 0.0 as S, n, f)).is_some();
                     tz.rec(!nan, || format!("planar::<{}>(fovy = 0, height = 0, near = {:e}, far = {:e}) must panic (focal point NaN)", $tag, n, f));
+                    // the other preconditions are not waived in the orthographic case (nor next to it)
+                    for &fv0 in [0.0 as S, 1.0e-3, -0.5].iter() {
+                        let za = quiet(&|| planar(Rad(fv0), 0.0 as S, h, n, f)).is_some();
+                        let nf = quiet(&|| planar(Rad(fv0), aspect, h, n, n)).is_some();
+                        let ng = quiet(&|| planar(Rad(fv0), aspect, -h, n, f)).is_some();
+                        tr.rec(!za && !nf && !ng, || format!("planar::<{}>(fovy = {:e}, ..) must panic for zero aspect (accepted: {}), near = far = {:e} (accepted: {}), negative height {:e} (accepted: {})",
+                            $tag, fv0, za, n, nf, -h, ng));
+                    }
                 }
                 t.print();
                 tz.print();
+                tr.print();
             }
 
             // ---------------------------------------------------------------- C12
